@@ -78,6 +78,27 @@ def ref_read_all(path, meshpath, xp_secs, au):
     return r
 
 
+def file_form(m):
+    """the model with its block names as a simulator prints them ((A3,I2)), for the independent writer"""
+    fm = dict(m)
+    for key in ('blocks', 'connections', 'generators', 'incon'):
+        if key in fm:
+            fm[key] = [dict(r) for r in fm[key]]
+            for r in fm[key]:
+                for nk in ('name', 'block', 'block1', 'block2'):
+                    if nk in r: r[nk] = a3i2_print(r[nk])
+    for key in ('foft', 'goft'):
+        if key in fm: fm[key] = [a3i2_print(n) for n in fm[key]]
+    if 'coft' in fm: fm['coft'] = [[a3i2_print(a), a3i2_print(b)] for a, b in fm['coft']]
+    if 'short' in fm:
+        sh = dict(fm['short'])
+        if 'block' in sh: sh['block'] = [a3i2_print(n) for n in sh['block']]
+        for k in ('connection', 'generator'):
+            if k in sh: sh[k] = [[a3i2_print(a), a3i2_print(b)] for a, b in sh[k]]
+        fm['short'] = sh
+    return fm
+
+
 def run_gen(case, R):
     import t2data, fixed_format_file as fff
     m = case['m']
@@ -220,22 +241,7 @@ def run_gen(case, R):
         style = case.get('style') or ('E', 'D', 'e')[len(m['title']) % 3]
         R.label('fortran-style:' + style)
         f4 = os.path.join(tmp, 'four.dat')
-        fm = dict(m)
-        for key in ('blocks', 'connections', 'generators', 'incon'):
-            if key in fm:
-                fm[key] = [dict(r) for r in fm[key]]
-                for r in fm[key]:
-                    for nk in ('name', 'block', 'block1', 'block2'):
-                        if nk in r: r[nk] = a3i2_print(r[nk])
-        for key in ('foft', 'goft'):
-            if key in fm: fm[key] = [a3i2_print(n) for n in fm[key]]
-        if 'coft' in fm: fm['coft'] = [[a3i2_print(a), a3i2_print(b)] for a, b in fm['coft']]
-        if 'short' in fm:
-            sh = dict(fm['short'])
-            if 'block' in sh: sh['block'] = [a3i2_print(n) for n in sh['block']]
-            for k in ('connection', 'generator'):
-                if k in sh: sh[k] = [[a3i2_print(a), a3i2_print(b)] for a, b in sh[k]]
-            fm['short'] = sh
+        fm = file_form(m)
         t2_ref.write(f4, fm, style=style, au=au)
         r4 = data.with_defaults(t2_ref.read(f4, autough2=au))
         import re
